@@ -180,7 +180,10 @@ func (x *ctx) inline(st *state, fr *frame, callee *ssa.Function, bind []val, arg
 	if len(callee.Blocks) == 0 {
 		x.fail("no body for %s", callee)
 	}
-	return x.run(st, nfr, callee.Blocks[0], 0, nil)
+	x.frames = append(x.frames, fr)
+	outs := x.run(st, nfr, callee.Blocks[0], 0, nil)
+	x.frames = x.frames[:len(x.frames)-1]
+	return outs
 }
 
 func (x *ctx) valEq(a, b val) string {
@@ -810,6 +813,19 @@ func (x *ctx) contractCall(st *state, fr *frame, con *Contract, callee *ssa.Func
 	for name, spec := range con.Cbs {
 		if strings.HasPrefix(name, "result:") {
 			ret.iter = &iterRef{con: con, spec: spec, args: args}
+		}
+	}
+	if con.Flags["counted"] && x.spec == 0 {
+		// results of the last call
+		short := con.Obj.Name()
+		for i, rn := range con.Results {
+			rv := ret
+			if len(con.Results) > 1 && ret.agg && i < len(ret.fields) {
+				rv = ret.fields[i]
+			}
+			if rv.t.s != "" {
+				x.ghostWrite(st, "ghost_last_"+short+"_"+rn, nil, rv.t)
+			}
 		}
 	}
 	if con.Flags["fresh"] && ret.t.s != "" && ret.t.srt == sRef {
@@ -1527,7 +1543,7 @@ func (x *ctx) siteAssertions(st *state, fr *frame, b *ssa.BasicBlock, in *ssa.Ca
 	if j := strings.Index(name, "["); j > 0 {
 		name = name[:j] // instantiated generic: Set[K V]
 	}
-	cls := fr.con.Sites[name]
+	cls := x.con.Sites[name]
 	if len(cls) == 0 {
 		return
 	}
@@ -1536,12 +1552,22 @@ func (x *ctx) siteAssertions(st *state, fr *frame, b *ssa.BasicBlock, in *ssa.Ca
 		if v, ok := x.localByName(st, fr, b, n); ok {
 			return v, true
 		}
+		// enclosing frames (the call may sit in a closure of the verified function)
+		for i := len(x.frames) - 1; i >= 0; i-- {
+			of := x.frames[i]
+			if of.fn != x.fn && of.fn.Parent() == nil {
+				continue
+			}
+			if v, ok := x.localAnywhere(st, of, n); ok {
+				return v, true
+			}
+		}
 		return penv(n, t)
 	}
 	for _, cl := range cls {
 		pc := x.pre.clone()
 		np := len(pc.pc)
-		l1 := x.clauseL1(pc, fr.con, cl, penv)
+		l1 := x.clauseL1(pc, x.con, cl, penv)
 		for id, v := range pc.cells {
 			if _, ok := st.cells[id]; !ok {
 				st.cells[id] = v
@@ -1556,4 +1582,34 @@ func (x *ctx) siteAssertions(st *state, fr *frame, b *ssa.BasicBlock, in *ssa.Ca
 		x.oblige(st, "site-requires", cl.Tag(), name, g.t.s, "")
 		st.assume(g.t.s)
 	}
+}
+
+// localAnywhere resolves a local of frame of by name using any bound debug reference (last one wins).
+func (x *ctx) localAnywhere(st *state, of *frame, name string) (val, bool) {
+	var best ssa.Value
+	var isAddr bool
+	for _, blk := range of.fn.Blocks {
+		for _, in := range blk.Instrs {
+			if d, ok := in.(*ssa.DebugRef); ok {
+				obj := d.Object()
+				if obj == nil || obj.Name() != name {
+					continue
+				}
+				if _, bound := of.regs[d.X]; !bound {
+					if _, isC := d.X.(*ssa.Const); !isC {
+						continue
+					}
+				}
+				best, isAddr = d.X, d.IsAddr
+			}
+		}
+	}
+	if best == nil {
+		return val{}, false
+	}
+	v := x.get(of, st, best)
+	if isAddr {
+		return x.load(st, v, deref(best.Type())), true
+	}
+	return v, true
 }
